@@ -429,6 +429,16 @@ class C08(Prop):
             except InvalidRequirement:
                 return True, "rejected (reported by parts_recovered)"
         if law == "parts_recovered":
+            # what earlier callers did with the requirements *they* parsed (they own them: extras is a set, the other parts are
+            # assignable) must not show in this one
+            for prior in ("zzz", "zzz>=1; os_name=='a'", "zzz[e] @ https://u.example/x", "zzz[]", s):
+                try:
+                    q = Requirement(prior)
+                except InvalidRequirement:
+                    continue
+                q.extras.add("scribble")
+                q.specifier.prereleases = True
+                q.marker, q.url, q.name = None, "https://scribble.example/", "scribble"
             try:
                 r = Requirement(s)
             except InvalidRequirement as e:
@@ -580,3 +590,15 @@ PROP = with_src(C08(), share=10, functions=_REQ_FUNCS,
                     "Src._parse_requirement_eq_model", "Src.parse_requirement_eq_model", "Src.markerParserAgrees",
                     "Src._parse_requirement_marker_agrees'", "Src.parse_requirement_eq_model'", "Src._parse_marker_agrees",
                     "Src.parseSource_ne_fuel", "Src.parse_requirement_eq_parseSource"])
+# x5: the Requirement class itself — `__init__` (parse, extras set, SpecifierSet, marker normalisation), `_iter_parts` /
+# `__str__`, `__hash__` — regenerated from requirements.py and proved equal to Req.parse / Req.str (the frozenset of clauses is
+# iterated in an order that is a parameter: Src.Ordered)
+PROP = with_src(PROP, share=10,
+                functions=["Requirement.__init__", "Requirement._iter_parts", "Requirement.__str__", "Requirement.__hash__",
+                           "Requirement.__eq__"],
+                module=["PkgProofs.Props.Src.ReqStr", "PkgProofs.Props.Src.ReqEq"],
+                theorems=["Src.reqstr_translated", "Src.reqeq_translated", "Src.Requirement._iter_parts_eq_model",
+                          "Src.Requirement.__str___eq_model", "Src.Requirement.__str___of_parse",
+                          "Src.Requirement.__hash___eq_model", "Src.Requirement.__init___eq_model",
+                          "Src.Requirement.__init___eq_model'", "Src.Requirement.__eq___eq_model", "Src.Requirement.__eq___parsed",
+                          "Src.Requirement.__eq___other", "Src.ofParsed_wf"])
